@@ -240,7 +240,7 @@ func runC12(r *ev.Recorder) {
 				}
 			}
 		}
-		runes = append(runes, 0xD7FF, 0xE000, 0xFFFD, 0xFFFE, 0xFFFF, utf8.MaxRune)
+		runes = append(runes, 0xD7FF, 0xE000, 0xFFFD, 0xFFFE, 0xFFFF, utf8.MaxRune, 0xFEFF, 0xFFF9, 0xE0001, 0xF0000, 0x1F600, 0x3000, 0xFDD0, 0xAD, 0x061C, 0x180E)
 	}
 	explore.Range(int64(len(runes)), 0, r.Expired, func(_ int, i int64) {
 		x := runes[i]
